@@ -428,7 +428,7 @@ class ReadTarFS(FS):
         # type: (Text, Text, int, **Any) -> BinaryIO
         _path = relpath(self.validatepath(path))
 
-        if "w" in mode or "+" in mode or "a" in mode:
+        if "w" in mode or "+" in mode or "a" in mode or "x" in mode:
             raise errors.ResourceReadOnly(path)
 
         try:
